@@ -23,6 +23,7 @@ from pathlib import Path
 import numpy as np
 
 from harness import lib
+from harness.checks import sys_common
 
 CONFIGS = [
     dict(name="cA", grid_n=3, n_mazes=3, ctor="gen_dfs", ctor_kwargs={}, seed=5, endpoint_kwargs={}, filters=[], thr=None),
@@ -329,6 +330,9 @@ def main(chk: lib.Check) -> int:
         s_ = next((r_ for r_ in recs if r_["fault_detail"][0] == k), None)
         if s_:
             chk.sample({kk: s_[kk] for kk in ("cfg", "fault_detail", "read", "generated", "saved", "outcome", "after_ok", "second_ok")})
+    # ---- the composed system (MazeSystem.tla): a request must hand out exactly the requested configuration's dataset
+    # whatever was requested, filtered, saved and read before
+    sys_common.run(chk, thorough)
     chk.exhaustive = thorough
     chk.assumptions = ["TLC, CommunityModules JSON, CPython/numpy", "a crash is modelled as a BaseException raised by the file object at low-level write k of zipfile (the file is left as the first k writes produced)",
                        "reference = from_config without cache in the same process", "a foreign file must not be served as the requested data; raising or regenerating are both accepted",
